@@ -227,7 +227,7 @@ int next_sibling(const std::vector<Elem>& el, int k) { for (size_t j = k + 1; j 
 struct Fault { int base; int file; int cls; int op; long target; };   // file 0 = mesh, 1 = parameters; cls 0 token/element, 1 line, 2 section, 3 truncation, 4 empty record
 const char* FILE_NAMES[2] = {"vtk", "xml"};
 // consistent-empty records of the mesh file (class 4): a count set to zero together with the data it announces
-const char* const EMPTY_RECORD_NAMES[] = {"cell_line_0", "cell_line_0_padded", "cell_without_faces", "faces_without_points", "no_points"};
+const char* const EMPTY_RECORD_NAMES[] = {"cell_line_0", "cell_line_0_padded", "cell_without_faces", "faces_without_points", "no_points", "two_faces_sharing_no_point"};
 const int N_EMPTY_RECORD = 5;
 std::string fault_opname(const Fault& f) {
     std::string k = FILE_NAMES[f.file];
@@ -276,6 +276,7 @@ void build_catalogue(World& w) {
             for (long t = 0; t < (long)s.size(); t++) w.cat.push_back({b, file, 3, 0, t});
             if (file == 0) { long ncells = 0; for (auto& r : vtk_roles(s)) if (r == "cell_len") ncells++;
                 for (long c = 0; c < ncells; c++) for (int op = 0; op < 4; op++) w.cat.push_back({b, 0, 4, op, c});
+                for (long c = 0; c < ncells; c++) w.cat.push_back({b, 0, 4, 5, c});
                 w.cat.push_back({b, 0, 4, 4, 0});
                 { long n = (long)vtk_tokens(s).size(); for (long t = 0; t < n; t++) w.cat.push_back({b, 0, 5, 0, t}); } }
         }
@@ -335,6 +336,16 @@ std::string apply_fault(const std::string& s, const Fault& f, std::string& targe
             target = "all points"; if (a != std::string::npos) r.erase(a, b2 - a); return r; }
         long c = -1; size_t first = 0, last = 0, nfaces = 0;
         for (size_t k = 0; k < t.size(); k++) { if (role[k] == "cell_len") { c++; if (c == f.target) first = k; } if (c == f.target && (role[k] == "cell_len" || role[k] == "face_count" || role[k] == "face_len" || role[k] == "face_index")) { last = k; if (role[k] == "face_len") nfaces++; } }
+        if (f.op == 5) {   // the record keeps two of its faces that share no point: two open patches (every edge has one face) with V - E + F = 2, the value of a closed surface
+            std::vector<std::vector<std::string>> F; for (size_t k = first; k <= last; k++) { if (role[k] == "face_len") F.emplace_back(); else if (role[k] == "face_index" && !F.empty()) F.back().push_back(s.substr(t[k].b, t[k].e - t[k].b)); }
+            size_t B = 0; for (size_t j = 1; j < F.size() && !B; j++) { bool common = false; for (auto& x : F[j]) for (auto& y : F[0]) if (x == y) common = true; if (!common) B = j; }
+            target = "cell#" + std::to_string(f.target); if (!B) return r;
+            std::string rec; size_t len = 1; for (size_t j : {(size_t)0, B}) { rec += " " + std::to_string(F[j].size()); for (auto& x : F[j]) rec += " " + x; len += 1 + F[j].size(); }
+            const long len_old = atol(s.substr(t[first].b, t[first].e - t[first].b).c_str());
+            r.replace(t[first].b, t[last].e - t[first].b, std::to_string(len) + " 2" + rec);
+            // the declared number of integers of the CELLS section follows the record (the token lies before the record: positions up to it are unchanged)
+            for (size_t k = 0; k + 2 < t.size() && k < first; k++) if (s.substr(t[k].b, t[k].e - t[k].b) == "CELLS") { const long tot = atol(s.substr(t[k + 2].b, t[k + 2].e - t[k + 2].b).c_str()); r.replace(t[k + 2].b, t[k + 2].e - t[k + 2].b, std::to_string(tot - len_old + (long)len)); break; }
+            return r; }
         std::string repl = f.op == 0 ? "0" : f.op == 1 ? "0     " : f.op == 2 ? "1 0" : std::to_string(1 + nfaces) + " " + std::to_string(nfaces);
         if (f.op == 3) for (size_t j = 0; j < nfaces; j++) repl += " 0";
         target = "cell#" + std::to_string(f.target); r.replace(t[first].b, t[last].e - t[first].b, repl); return r;
